@@ -243,7 +243,25 @@ C02Viol(ev) ==
            IN IF ~ok THEN {Viol("C14", "exit-code")} ELSE {}))
 
 \* C03: nothing (but deferred commands) starts in an activation that a failure has stopped
+\* the execution of a deduplicated task (for these variable values) contains a failing, non-ignored command
+FailedShared(t, vv) ==
+  \E e \in ended : /\ e.t = t /\ (T(t).run = "once" \/ e.v = vv)
+                     /\ LET ks == EntryPos(e) IN ks # {} /\
+                         LET x == ExpCmds(t)[CHOOSE k \in ks : TRUE] IN x.k = "sh" /\ x.x # 0 /\ ~x.ign /\ ~T(t).ign
+
+C03Shared(ev) ==
+  LET es == ExpCmds(ev.t) ks == EntryPos(ev) IN
+  { Viol("C03", "continued-after-failure-of-shared-dependency") :
+      d \in { d \in Range(ExpDeps(ev.t)) : IsDedup(d.t) /\ FailedShared(d.t, ResolveV(d.v, ev.v)) } }
+  \cup
+  (IF ks = {} \/ T(ev.t).ign THEN {}
+   ELSE LET k == CHOOSE k \in ks : TRUE IN
+        { Viol("C03", "continued-after-failure-of-shared-callee") :
+            k1 \in {k1 \in 1..(k-1) : es[k1].k = "call" /\ es[k].k = "sh" /\ IsDedup(es[k1].cs.t)
+                                       /\ FailedShared(es[k1].cs.t, ResolveV(es[k1].cs.v, ev.v))} })
+
 C03Viol(ev) ==
+  C03Shared(ev) \cup
   LET ks == EntryPos(ev) IN
   IF ks # {} /\ ExpCmds(ev.t)[CHOOSE k \in ks : TRUE].k = "sh" /\ ev.p \in DOMAIN dead
   THEN {Viol("C03", IF dead[ev.p].own THEN "continued-after-own-failure" ELSE "continued-after-callee-failure")}
